@@ -123,6 +123,9 @@ def ip_entry(draw, fam, addpath: bool) -> dict:
         e['labels'] = draw(st.lists(st.one_of(st.sampled_from([16, 17, 100, 1000, 1048575]), st.integers(16, 2**20 - 1)), min_size=1, max_size=3))
     if safi == 128:
         e['rd'] = draw(rd()).hex()
+    bits = int(e['prefix'].split('/')[1]) + (64 if safi == 128 else 0)
+    while 'labels' in e and len(e['labels']) > 1 and bits + 24 * len(e['labels']) > 255:
+        e['labels'].pop()  # the NLRI length is one byte of bits
     return e
 
 
